@@ -22,7 +22,10 @@ def opSym : BinOp → String
 
 def parseConst (j : Json) : R Const := do
   match (← fStr j "k") with
-  | "s" => pure (.scal (← fRat j "v"))
+  | "s" =>
+    match ← jOpt jRat (fieldD j "ln" Json.null) with
+    | some L => pure (.scalLn (← fRat j "v") L)
+    | none => pure (.scal (← fRat j "v"))
   | "v" => pure (.vec (← fRats j "v"))
   | "m" => pure (.mat (← fRatss j "rows") (← fNat j "ncols"))
   | k => throw s!"unknown operand kind {k}"
@@ -44,7 +47,7 @@ def coreJson (c : Core) : Json :=
        ("onto", Json.bool c.isOnto), ("transposed", Json.bool c.transposed)]
 
 def constKind : Const → String
-  | .scal _ => "s" | .vec _ => "v" | .mat _ _ => "m"
+  | .scal _ => "s" | .vec _ => "v" | .mat _ _ => "m" | .scalLn _ _ => "s"
 
 def stepJson : Step → Json
   | .proj c => obj [("proj", coreJson c)]
